@@ -16,7 +16,7 @@ SMALL = [
     ("ma_osc", "a -| b\nb -> a\n$a: !b\n$b: a\n", 2),
     ("ma_param", "a -?? b\nb -?? a\na -?? a\n$a: a | f(b)\n$b: b & a\n", 2),
     ("ma_constrained", "a -> b\nb -| a\n$a: !b | k\n", 1),
-    ("ma_steady", "a -?? a\nb -?? b\n$a: a\n$b: a & b\n", 2),
+    ("ma_steady", "a -?? a\nb -?? b\na -?? b\n$a: a\n$b: a & b\n", 2),
 ]
 
 
